@@ -4,6 +4,7 @@ import (
 	"encoding/binary"
 	"fmt"
 	"sort"
+	"strings"
 	"time"
 
 	"github.com/anishathalye/porcupine"
@@ -21,18 +22,18 @@ type appliedRec struct {
 
 // promise ledger of one replica: what it has told the outside world.
 type ledger struct {
-	maxTerm    uint64            // highest term made visible
-	voteOf     map[uint64]uint64 // term -> candidate it granted its vote to (incl. itself)
-	maxAcked   uint64            // highest index acknowledged with a non-reject ReplicateResp
-	ackedTerm  uint64
+	maxTerm   uint64            // highest term made visible
+	voteOf    map[uint64]uint64 // term -> candidate it granted its vote to (incl. itself)
+	maxAcked  uint64            // highest index acknowledged with a non-reject ReplicateResp
+	ackedTerm uint64
 }
 
 // durable shadow of one replica: what SaveRaftState has returned nil for.
 type shadow struct {
 	term, vote, commit uint64
-	log      map[uint64]uint64 // index -> term
-	last     uint64
-	ssIndex  uint64
+	log                map[uint64]uint64 // index -> term
+	last               uint64
+	ssIndex            uint64
 }
 
 type oracles struct {
@@ -49,24 +50,24 @@ type oracles struct {
 	completedReads int
 	allowDup       bool
 	// C04
-	ledgers  []*ledger
-	shadows  []*shadow
+	ledgers       []*ledger
+	shadows       []*shadow
 	checkRecovery []bool
-	crashes  int
+	crashes       int
 	// C12
-	results map[*Client]int
+	results  map[*Client]int
 	stateSet map[uint64]struct{}
 	// C07
-	lastCCID  uint64
-	latest    *memView
-	memByCCID map[uint64]*memView
-	lastMem   []*memView // last membership observed per host
-	everRemoved map[uint64]uint64 // replica id -> ccid at which it was seen removed
-	maxCommitted uint64
-	dupFired int
-	deadWids []uint64 // writes proposed with unregistered sessions: must never be applied
-	panics   []string
-	abandoned []*pendingReq
+	lastCCID      uint64
+	latest        *memView
+	memByCCID     map[uint64]*memView
+	lastMem       []*memView        // last membership observed per host
+	everRemoved   map[uint64]uint64 // replica id -> ccid at which it was seen removed
+	maxCommitted  uint64
+	dupFired      int
+	deadWids      []uint64 // writes proposed with unregistered sessions: must never be applied
+	panics        []string
+	abandoned     []*pendingReq
 	snapshotsDone int
 }
 
@@ -284,8 +285,23 @@ func (o *oracles) afterStep() {
 				s.ctx.Count("probe.leader_elected", 1)
 			}
 		}
-		if st.Committed > o.maxCommitted {
-			o.maxCommitted = st.Committed
+		// the commit index a replica holds in memory is a fact about the shard
+		// only up to what that replica has durably saved: the leader of a single
+		// voter quorum counts its own append before it is saved, and loses that
+		// "commit" together with the entry if it crashes first
+		eff := st.Committed
+		if sh := o.shadows[h.id]; sh != nil {
+			dur := sh.last
+			if sh.ssIndex > dur {
+				dur = sh.ssIndex
+			}
+			if dur < eff {
+				eff = dur
+				s.ctx.Count("probe.commit_ahead_of_durable_log", 1)
+			}
+		}
+		if eff > o.maxCommitted {
+			o.maxCommitted = eff
 		}
 		quiet := o.hostQuiet(h)
 		if o.checkRecovery[h.id] {
@@ -715,7 +731,27 @@ func (o *oracles) checkDeadline(c *Client) {
 }
 
 func (o *oracles) recordOp(op *histOp) {
+	if op.recorded {
+		return
+	}
+	op.recorded = true
 	o.history = append(o.history, op)
+}
+
+// recordOutstanding adds every write still in flight when the run ends (no
+// result yet, or a session proposal waiting to be retried) to the history with
+// an unknown outcome: it may have been applied.
+func (o *oracles) recordOutstanding() {
+	for _, c := range o.s.clients {
+		for _, op := range []*histOp{c.op, c.retry} {
+			if op != nil && op.write && op.wid != 0 && !op.known {
+				if op.failed == "" {
+					op.failed = "outstanding"
+				}
+				o.recordOp(op)
+			}
+		}
+	}
 }
 
 // ---------------- liveness / convergence ----------------
@@ -764,16 +800,59 @@ func (o *oracles) livenessFailedFor(prop string, what string) {
 		desc += "] "
 	}
 	for _, x := range s.hosts {
-		if !x.selfRemoved {
+		if !x.removed {
 			continue
 		}
+		// the log index of the membership change that removed x (ConfigChangeId
+		// of the first observed membership that lists it as removed)
+		var removalIndex uint64
+		for ccid, v := range o.memByCCID {
+			if v.removed[x.replicaID] && (removalIndex == 0 || ccid < removalIndex) {
+				removalIndex = ccid
+			}
+		}
+		if removalIndex == 0 {
+			continue // nobody ever applied the removal
+		}
 		for _, h := range s.hosts {
-			if st, ok := o.peek(h); ok && h != x {
+			if st, ok := o.peek(h); ok && h != x && st.Committed < removalIndex {
 				for _, rm := range st.Remotes {
-					if rm.ReplicaID == x.replicaID {
-						desc = fmt.Sprintf("cause=removed-replica-still-counted: replica %d applied its own removal and stopped, replica %d never learned that the removal was committed and still counts it as a member; ", x.replicaID, h.replicaID) + desc
+					if rm.ReplicaID == x.replicaID && !strings.HasPrefix(desc, "cause=") {
+						desc = fmt.Sprintf("cause=removed-replica-still-counted: the removal of replica %d (log index %d) was applied and the replica is gone; replica %d (commit index %d) does not know that the removal committed - it never learned it, or it lost the knowledge in a crash (the commit index is not synced) - and still counts it as a member; ", x.replicaID, removalIndex, h.replicaID, st.Committed) + desc
 					}
 				}
+			}
+		}
+	}
+	// a second consequence of a leader that stops the moment it applies its own
+	// removal: entries it appended after the removal entry were committed by
+	// itself plus the witness; no remaining full member holds them, and the
+	// witness (whose log is now the longest) refuses every remaining voter
+	for _, x := range s.hosts {
+		// x.removed without selfRemoved: the removed leader crashed right after
+		// (or while) applying its removal; removed hosts are not restarted
+		if !x.removed || strings.HasPrefix(desc, "cause=") {
+			continue
+		}
+		for _, w := range s.hosts {
+			ws, ok := o.peekFull(w)
+			if !ok || !ws.IsWitness {
+				continue
+			}
+			behind, voters := 0, 0
+			for _, h := range s.hosts {
+				hs, ok := o.peekFull(h)
+				if !ok || hs.IsWitness || hs.IsNonVoting || h == x {
+					continue
+				}
+				voters++
+				if hs.LastTerm < ws.LastTerm || (hs.LastTerm == ws.LastTerm && hs.LastIndex < ws.LastIndex) {
+					behind++
+				}
+			}
+			if voters > 0 && behind == voters {
+				desc = fmt.Sprintf("cause=witness-ahead-of-every-voter: replica %d was removed and is gone, witness %d holds the metadata of entries up to (term %d, index %d) that no remaining full member has; ", x.replicaID, w.replicaID, ws.LastTerm, ws.LastIndex) + desc
+				break
 			}
 		}
 	}
@@ -865,7 +944,28 @@ func (o *oracles) finalChecks() {
 			byApplied[st.Applied] = stRec{hash: hs, host: h.id}
 		}
 	}
+	o.recordOutstanding()
+	o.checkStaleReads()
 	o.checkLinearizable()
+}
+
+// checkStaleReads: a linearizable read invoked after a write to the same key
+// was acknowledged must see that write or a later one. Every applied write
+// bumps the key's version, so the comparison of versions is exact whatever the
+// network did (a duplicated proposal only adds versions).
+func (o *oracles) checkStaleReads() {
+	s := o.s
+	for _, r := range o.history {
+		if r.write || !r.known {
+			continue
+		}
+		for _, w := range o.history {
+			if w.write && w.known && w.key == r.key && w.outVer != 0 && w.ret < r.call && w.outVer > r.outVer {
+				s.ctx.Violate("C06", "stale-read", "read of key %d by client %d (invoked at %d) returned version %d, but write %d had been acknowledged with version %d at %d", r.key, r.client, r.call, r.outVer, w.wid, w.outVer, w.ret)
+				return
+			}
+		}
+	}
 }
 
 func (o *oracles) checkLinearizable() {
